@@ -900,7 +900,7 @@ def s_same_code(draw):
             args, kwargs = draw(s_call(s))
             ops.append([fn, kind, args, kwargs])
     calls = [(op[2], op[3]) for op in ops if op[1] != 'spec']
-    ok = [nm for nm in DECOS if all(admissible(nm, s, a, k) for a, k in calls)]
+    ok = [nm for nm in DECOS if all(admissible(nm, dict(s, dvals=dv), a, k) for a, k in calls for dv in dvals)]
     klasses = sorted(set(KLASS[nm] for nm in ok))
     stack = []
     for _ in range(draw(st.sampled_from([0, 0, 1, 1, 2]))):
